@@ -1301,10 +1301,18 @@ impl TypeChecker {
                 Name(name)
             }
             (Var(a), b) => {
+                // Occurs check: a type variable cannot be unified with a
+                // type that contains it, that would be an infinite type.
+                if self.occurs(a, &b) {
+                    return None;
+                }
                 self.type_info.unionfind.set(a, b.clone());
                 b.clone()
             }
             (a, Var(b)) => {
+                if self.occurs(b, &a) {
+                    return None;
+                }
                 self.type_info.unionfind.set(b, a.clone());
                 a.clone()
             }
@@ -1364,6 +1372,28 @@ impl TypeChecker {
                 return None;
             }
         })
+    }
+
+    /// Check whether the type variable `var` occurs in the type `ty`
+    fn occurs(&mut self, var: usize, ty: &Type) -> bool {
+        match self.resolve_type(ty) {
+            Type::Var(x) => x == var,
+            Type::Name(name) => {
+                name.arguments.iter().any(|t| self.occurs(var, t))
+            }
+            Type::Record(fields) | Type::RecordVar(_, fields) => {
+                fields.iter().any(|(_, t)| self.occurs(var, t))
+            }
+            Type::Function(params, ret) => {
+                params.iter().any(|t| self.occurs(var, t))
+                    || self.occurs(var, &ret)
+            }
+            Type::ExplicitVar(_)
+            | Type::IntVar(_, _)
+            | Type::FloatVar(_)
+            | Type::Unit
+            | Type::Never => false,
+        }
     }
 
     fn unify_intvars(
